@@ -103,3 +103,5 @@ Definition inst_discover_versions (c : ccfg) (offer : list (Z * Z)) (reply : byt
   discover_versions inst_T inst_K c offer reply.
 Definition inst_server_tls : option tlscfg := apply_assignments gen_DefaultServerTLSConfig zero_server_cfg.
 Definition inst_client_tls : option tlscfg := apply_assignments gen_DefaultClientTLSConfig zero_client_cfg.
+Definition inst_server_tls_from (c0 : tlscfg) : option tlscfg := apply_assignments gen_DefaultServerTLSConfig c0.
+Definition inst_client_tls_from (c0 : tlscfg) : option tlscfg := apply_assignments gen_DefaultClientTLSConfig c0.
